@@ -14,6 +14,11 @@ Per-direction limits (round 3): the server transport's default window / maximum 
 window / maximum packet size the client asks for per channel in open_session are drawn independently (packet 4096..2^20, window
 32768..2 MiB), so the two directions of a channel have different maximum packet sizes and windows, and writes larger than the smaller
 limit travel towards the end that advertised the larger one (classes max-packet:*).
+Size regime "jumbo" (round 4, a quarter of the channels): the receiving end advertises a maximum packet size above 256 KiB (300000 /
+512 KiB / 1 MiB; for client->server channels through the server transport's default) and a window that holds such a message, one
+stream carries 256 KiB .. 512 KiB and the send pattern starts with a single write of 256 KiB .. 512 KiB: chunk sizes go up to the
+whole payload, so single CHANNEL_DATA / EXTENDED_DATA messages of more than 256 KiB travel (with and without compression, across
+rekeys; classes message-size:*, write-size:*).
 0-2 renegotiate_keys()
 calls (either side, one at a time: a client round trip under the new keys follows each, so that BOTH sides are through before
 the next one starts) while the transfers run. Channels are only closed after the
@@ -66,7 +71,8 @@ RULE = (
     "patterns x combine_stderr none/start/mid (stderr being read)/mid-unread (stderr not read before the switch) x exit status 0..2^32-1 x 0-2 renegotiate_keys during transfer x compression on/off x "
     "cipher x MAC x link fragmentation x 0-3 id offset between the two sides x server-end default window {2 MiB,32768,100000} / max packet "
     "{32768,4096,8192,65536} x per-channel client-end window {2 MiB,32768,65536} / max packet {32768,4096,5000,65536,2^20} (different limits per "
-    "direction); non-trivial = >= 2 channels or a rekey or a mid-transfer "
+    "direction) x size regime normal|jumbo (1 in 4 channels: receiving end's max packet 300000|2^19|2^20, window >= 600000, one stream of 256..512 KiB, "
+    "first write 262144|262145|300000|400000|524288 bytes = single messages above 256 KiB); non-trivial = >= 2 channels or a rekey or a mid-transfer "
     "combine; distinct by the whole case. E4 e4combine: <= 5 DATA/EXTENDED_DATA feeds || set_combine_stderr(True) || optional readers under "
     "the deterministic scheduler (line-level switch points), non-trivial = >= 2 stderr feeds. handler: 1-2 channels x request kind "
     "exec|shell|subsystem|env|pty|window-change whose server-side handler writes 2-8 stdout/stderr chunks (1..40000 bytes), exit status "
@@ -177,11 +183,32 @@ def _limit_classes(case):
     return out
 
 
+def _message_classes(case):
+    """Size regime: the largest single CHANNEL_DATA / EXTENDED_DATA message a channel's plan produces = the largest write, limited
+    by what the receiving end advertised (maximum packet size - 64, window)."""
+    out = []
+    srv_p = max(4096, case.get("srv_p") or 32768)
+    for c in case["chans"]:
+        rcv_p = max(4096, c.get("cp") or 32768) if c["dir"] == "s2c" else srv_p
+        rcv_w = max(32768, (c.get("cw") if c["dir"] == "s2c" else case.get("srv_w")) or 2097152)
+        if rcv_p > 262144:
+            out.append("max-packet:receiving-end-advertises-more-than-256KiB")
+        writes = [size for _, size in plan_chunks(c["out"], c["err"], c["pattern"])]
+        biggest = min(max(writes), rcv_p - 64, rcv_w) if writes else 0
+        if max(writes or [0]) > 262144:
+            out.append("write-size:single-write-above-256KiB")
+        if biggest > 262144:
+            out.append("message-size:single-message-above-256KiB" + (":compressed" if case["compress"] else ""))
+        elif biggest > 32768:
+            out.append("message-size:single-message-32KiB..256KiB")
+    return out
+
+
 def run_case(ctx, case):
     nontrivial = len(case["chans"]) >= 2 or bool(case["rekeys"]) or any(c["combine"].startswith("mid") for c in case["chans"])
     classes = ["chans=%d" % len(case["chans"]), "rekeys=%d" % len(case["rekeys"]), "compress=%s" % case["compress"], "cipher=" + case["cipher"], "mac=" + case["mac"]]
     classes += sorted(set("combine=" + c["combine"] for c in case["chans"])) + sorted(set("dir=" + c["dir"] for c in case["chans"]))
-    classes += sorted(set(_limit_classes(case)))
+    classes += sorted(set(_limit_classes(case))) + sorted(set(_message_classes(case)))
     ctx.case(case, nontrivial, classes)
     v = run_once(ctx, case)
     if v is None:
@@ -803,10 +830,27 @@ sizes = st.one_of(st.sampled_from([0, 1, 32768, 524288]), st.integers(0, 524288)
 
 
 def chan_specs(cap):
-    def build(d, seed, n_out, n_err, pattern, reads, ereads, combine, status, cw, cp):
+    def build(d, seed, n_out, n_err, pattern, reads, ereads, combine, status, cw, cp, regime, j_packet, j_stream, j_size, j_chunk, j_window):
+        pattern = list(pattern)
+        jumbo = regime == "jumbo"
+        if jumbo:
+            # "jumbo" size regime: the receiving end advertises a maximum packet size above 256 KiB (and a window that can hold
+            # such a message), one stream carries more than 256 KiB and the send pattern contains a single write above 256 KiB
+            # (chunk sizes go up to the whole payload), i.e. single CHANNEL_DATA / EXTENDED_DATA messages of 256 KiB .. 512 KiB
+            cp, cw = j_packet, j_window
+            if j_stream == 0:
+                n_out = max(n_out, j_size)
+            else:
+                n_err = max(n_err, j_size)
+            pattern.insert(0, (j_stream, j_chunk))
+            reads = list(reads) + [65536]
+            ereads = list(ereads) + [65536]
         mean_c = sum(s for _, s in pattern) / len(pattern)
         lim = int(min(cap, 1500 * mean_c, 3000 * (sum(reads) / len(reads)), 3000 * (sum(ereads) / len(ereads))))
-        return {"dir": d, "seed": seed, "out": min(n_out, lim), "err": min(n_err, lim), "pattern": pattern, "reads": reads, "ereads": ereads, "combine": combine, "status": status, "cw": cw, "cp": cp}
+        spec = {"dir": d, "seed": seed, "out": min(n_out, lim), "err": min(n_err, lim), "pattern": pattern, "reads": reads, "ereads": ereads, "combine": combine, "status": status, "cw": cw, "cp": cp}
+        if jumbo:
+            spec["jumbo"] = True
+        return spec
 
     return st.builds(
         build,
@@ -821,6 +865,12 @@ def chan_specs(cap):
         st.one_of(st.sampled_from([0, 1, 255, 256, 0x7FFFFFFF, 0x80000000, 0xFFFFFFFF]), st.integers(0, 0xFFFFFFFF)),
         st.sampled_from(CLI_WINDOWS),
         st.sampled_from(CLI_PACKETS),
+        st.sampled_from(["normal", "normal", "normal", "jumbo"]),
+        st.sampled_from(JUMBO_PACKETS),
+        st.integers(0, 1),
+        st.one_of(st.sampled_from([300000, 524288]), st.integers(JUMBO + 1, 524288)),
+        st.sampled_from(JUMBO_CHUNKS),
+        st.sampled_from([None, 1 << 21, 600000]),
     )
 
 
@@ -830,15 +880,22 @@ CLI_WINDOWS = [None, None, None, 32768, 65536, 1 << 21]
 CLI_PACKETS = [None, None, 4096, 4096, 5000, 32768, 65536, 1 << 20]
 SRV_WINDOWS = [None, None, 32768, 100000]
 SRV_PACKETS = [None, None, 4096, 8192, 65536, 65536]
+# size regime "jumbo" (round 4): maximum packet sizes above 256 KiB on the receiving end and single writes of 256 KiB .. 512 KiB
+JUMBO = 262144
+JUMBO_PACKETS = [300000, 1 << 19, 1 << 20, 1 << 20]
+JUMBO_CHUNKS = [JUMBO, JUMBO + 1, 300000, 400000, 524288]
 
 
 def case_strategy(total_cap):
-    def build(chans, rekeys, compress, cipher, mac, frag, id_offset, srv_w, srv_p):
+    def build(chans, rekeys, compress, cipher, mac, frag, id_offset, srv_w, srv_p, j_srv_p):
         # keep the whole case under total_cap bytes
         per = max(1, total_cap // max(1, len(chans)))
         for c in chans:
             c["out"] = min(c["out"], per)
             c["err"] = min(c["err"], per)
+        if any(c.get("jumbo") and c["dir"] == "c2s" for c in chans):
+            # the receiving end of a client->server channel is the server: its transport-wide defaults are the limits it advertises
+            srv_p, srv_w = j_srv_p, None
         return {"chans": chans, "rekeys": rekeys, "compress": compress, "cipher": cipher, "mac": mac, "frag": frag, "id_offset": id_offset, "srv_w": srv_w, "srv_p": srv_p}
 
     return st.builds(
@@ -852,6 +909,7 @@ def case_strategy(total_cap):
         st.integers(0, 3),
         st.sampled_from(SRV_WINDOWS),
         st.sampled_from(SRV_PACKETS),
+        st.sampled_from(JUMBO_PACKETS),
     )
 
 
